@@ -317,42 +317,20 @@ def run(ctx):
         else:
             ctx.ok('EFFECT-PURE', len(seen), {'hash_iteration_sites': hsites, 'discharged_by': 'no year in two columns (%d leap years)' % len(seen)})
 
+    # non-blocking acquisition makes an answer depend on what other threads hold at that moment
+    tries = sorted(set((short(f['path']), x) for f in mir['fns'] for c_ in f['calls'] for x in expand(c_) if re.search(r'::(try_lock|try_read|try_write)\b', x)))
+    if tries:
+        ctx.violation('EFFECT-LOCK', 'EFFECT:try-lock:%s' % tries[0][0], '%s acquires shared state with %s: whether it succeeds depends on the other threads (and on poisoning), so the answer of a query '
+                      'is no longer a function of its arguments' % (tries[0][0], tries[0][1].split('::')[-1]), {'all': tries})
+    else:
+        ctx.ok('EFFECT-LOCK', 1, {'non_blocking_acquisitions': 0})
+
     # ------------------------------------------------------------------ 6. per-value memo cells
+    from rules import shared as _shared
+    _shared.memo_cells(ctx)       # construction / copying / foreign writes of memo cells (the same rule every date-level property includes)
     cell_types = [n for n, s in p.structs.items() if any('RefCell' in ty or 'Cell<' in ty for _, ty in s['fields'])]
-    ctx.floor('EFFECT-CELL', 'types with RefCell memo fields', len(cell_types), 2)
     for ty in cell_types:
         cells = [f for f, fty in p.structs[ty]['fields'] if 'Cell' in fty]
-        bad = []
-        writers = {}
-        for fn in p.all_fns:
-            if fn.body is None:
-                continue
-
-            def v(n, fn=fn):
-                if n.get('k') == 'struct':
-                    name = n['path']['segs'][-1]
-                    if name == 'Self':
-                        name = fn.owner
-                    if name == ty:
-                        if fn.qname != '%s::new' % ty:
-                            bad.append('%s builds a %s outside its constructor (%s:%s)' % (fn.qname, ty, fn.file, n.get('ln')))
-                        if n.get('rest') is not None:
-                            bad.append('%s builds a %s with struct-update syntax: memo cells are copied from another value (%s:%s)' % (fn.qname, ty, fn.file, n.get('ln')))
-                        for fname, fe in n['fields']:
-                            if fname in cells:
-                                ok = fe.get('k') == 'call' and fe['f'].get('k') == 'path' and fe['f']['segs'][-2:] == ['RefCell', 'new'] and fe['args'] and fe['args'][0].get('k') == 'path' and fe['args'][0]['segs'] == ['None']
-                                if not ok:
-                                    bad.append('%s initialises memo cell %s.%s with something other than RefCell::new(None) (%s:%s)' % (fn.qname, ty, fname, fn.file, n.get('ln')))
-                if n.get('k') == 'mcall' and n['m'] in ('replace', 'set', 'borrow_mut', 'swap', 'replace_with') and n['recv'].get('k') == 'field' and n['recv']['name'] in cells and fn.owner == ty:
-                    writers.setdefault(n['recv']['name'], set()).add(fn.qname)
-            walk(fn.body, v)
-        multi = [(c, sorted(w)) for c, w in writers.items() if len(w) > 1]
-        if bad:
-            ctx.violation('EFFECT-CELL', 'EFFECT:%s:cells' % ty, bad[0], {'all': bad})
-        elif multi:
-            ctx.violation('EFFECT-CELL', 'EFFECT:%s:cell-writers' % ty, 'memo cell %s.%s is written by several functions %s' % (ty, multi[0][0], multi[0][1]))
-        else:
-            ctx.ok('EFFECT-CELL', len(cells), {'type': ty, 'cells': cells, 'writers': dict((c, sorted(w)) for c, w in writers.items())})
         # PartialEq / Display must not read the cells
         for tr, fnsd in p.trait_impls.get(ty, {}).items():
             for fname, fn in fnsd.items():
